@@ -762,19 +762,29 @@ func buildRequest(m *model, q Req, k int, knownID string, sc Scenario, desc *des
 		return req, b
 	}
 	// a session other than the one this connection already carries: silent
+	// (a server may refuse it because of the binding, or serve it as if there were no binding: when
+	// it answers 200 the transition of the addressed session is the ordinary one)
+	soften := ""
 	if tgt != nil && attached != nil && tgt != attached {
-		set(expEither, "addresses another session than the one bound to this connection", nil)
-		return req, b
+		soften = "addresses another session than the one bound to this connection"
 	}
 	// ... or may carry: a connection that addressed another live session before, with a request that
 	// failed, may or may not be bound to it (the library binds it; the statement does not say)
-	if tgt != nil {
+	if tgt != nil && soften == "" {
 		for _, x := range m.sessions {
 			if x != tgt && x.alive && x.maybe[k] {
-				set(expEither, "this connection addressed another live session before (with a request that failed)", nil)
-				return req, b
+				soften = "this connection addressed another live session before (with a request that failed)"
+				break
 			}
 		}
+	}
+	if soften != "" {
+		defer func() {
+			if b.exp == expOK {
+				b.exp = expEither
+			}
+			b.note += "; " + soften
+		}()
 	}
 	if tgt == nil && hdr == "none" {
 		switch method {
